@@ -21,6 +21,9 @@ HTTP_T = 12
 # action -> (raw response or special, expected SMTP-level class code as the statement assigns it; 0 = failure of kind "x")
 ACTIONS = {
     'ok200': (b'HTTP/1.1 200 OK\r\nContent-Length: 0\r\nX-Smtp-Reply: 250; message="2.6.0 queued"\r\n\r\n', 250),
+    'ok200body': (b'HTTP/1.1 200 OK\r\nContent-Length: 7\r\nContent-Type: text/plain\r\nX-Smtp-Reply: 250; message="2.6.0 queued"\r\n\r\nqueued\n', 250),
+    'ok200chunked': (b'HTTP/1.1 200 OK\r\nTransfer-Encoding: chunked\r\nX-Smtp-Reply: 250; message="2.6.0 queued"\r\n\r\n3\r\nabc\r\n0\r\n\r\n', 250),
+    'hdr450body': (b'HTTP/1.1 503 Service Unavailable\r\nContent-Length: 6\r\nX-Smtp-Reply: 450; message="4.2.0 later"\r\n\r\nlater\n', 450),
     'ok204plain': (b'HTTP/1.1 204 No Content\r\nContent-Length: 0\r\n\r\n', 250),
     'hdr550': (b'HTTP/1.1 400 Bad Request\r\nContent-Length: 0\r\nX-Smtp-Reply: 550; message="5.1.1 no such user"\r\n\r\n', 550),
     'hdr450': (b'HTTP/1.1 503 Service Unavailable\r\nContent-Length: 0\r\nX-Smtp-Reply: 450; message="4.2.0 later"\r\n\r\n', 450),
@@ -37,12 +40,39 @@ ACTIONS = {
 
 
 class HttpRun(object):
-    def __init__(self, actions, pool_size=None, idle_timeout=None, refuse=False):
-        """actions: list consumed one per request (last repeated)"""
+    def __init__(self, actions, pool_size=None, idle_timeout=None, refuse=False, relay_side_conns=False):
+        """actions: list consumed one per request (last repeated).  relay_side_conns: connection open/close events are
+        logged where the relay creates / closes its connection objects (the pool's own count) instead of where the peer
+        accepts and loses them (which lags behind on real sockets)."""
         CLOCK.reset(1000.0)
         self.ev = []
+        self.relay_side = relay_side_conns
+        if relay_side_conns:
+            import slimta.relay.http as rh
+            if not hasattr(rh, '_verif_orig_get_connection'):
+                rh._verif_orig_get_connection = rh.get_connection
+            run = self
+            self.nconn_relay = 0
+
+            def get_connection(url, context):
+                conn = rh._verif_orig_get_connection(url, context)
+                run.nconn_relay += 1
+                k = run.nconn_relay
+                run.log(t='conn', what='open', conn=k, act='ok')
+                state = {'open': True}
+                orig_close = conn.close
+
+                def close():
+                    if state['open']:
+                        state['open'] = False
+                        run.log(t='conn', what='close', conn=k)
+                    return orig_close()
+                conn.close = close
+                return conn
+            rh.get_connection = get_connection
         self.actions = list(actions)
         self.nreq = 0
+        self.stalling = 0
         self.open = 0
         self.greenlets = []
         self.server = StreamServer(('127.0.0.1', 0), self.handle)
@@ -61,7 +91,8 @@ class HttpRun(object):
     def handle(self, sock, addr):
         self.open += 1
         conn = self.open
-        self.log(t='conn', what='open', conn=conn, act='ok')
+        if not self.relay_side:
+            self.log(t='conn', what='open', conn=conn, act='ok')
         f = sock.makefile('rb')
         try:
             while True:
@@ -82,11 +113,17 @@ class HttpRun(object):
                 self.nreq += 1
                 raw, code = ACTIONS[act]
                 self.log(t='peer', stage='http', i=0, act='code' if code else ('stall' if raw == 'stall' else 'disconnect' if raw == 'close' else 'malformed'),
-                         code=code, conn=conn, trans=self.nreq - 1, marker=marker)
+                         code=code, conn=conn, trans=self.nreq - 1, marker=marker, m=marker)
                 if raw == 'close':
                     break
                 if raw == 'stall':
-                    Event().wait()
+                    self.stalling += 1
+                    try:
+                        while sock.recv(4096):      # silent until the relay gives up and closes
+                            pass
+                    finally:
+                        self.stalling -= 1
+                    break
                 out = raw.replace(b'message="', b'message="m%d ' % marker) if b'message="' in raw else raw
                 sock.sendall(out)
                 if raw.startswith(b'this'):
@@ -94,7 +131,8 @@ class HttpRun(object):
         except Exception:  # noqa
             pass
         finally:
-            self.log(t='conn', what='close', conn=conn)
+            if not self.relay_side:
+                self.log(t='conn', what='close', conn=conn)
             try:
                 sock.close()
             except Exception:  # noqa
@@ -105,7 +143,7 @@ class HttpRun(object):
         env.parse(b'Subject: req %d\r\nX-Marker: m%d\r\n\r\nbody of request %d\r\n' % (req, req, req))
         self.log(t='call', req=req, nrcpt=nrcpt)
         if self.refuse and not any(e['t'] == 'peer' for e in self.ev):
-            self.log(t='peer', stage='http', i=0, act='disconnect', code=0, conn=0, trans=0, marker=0)
+            self.log(t='peer', stage='http', i=0, act='disconnect', code=0, conn=0, trans=0, marker=0, m=0)
 
         def mark(msg):
             ms = re.findall(r'm(\d+) ', msg or '')
@@ -138,8 +176,17 @@ class HttpRun(object):
             end += 0.01
         vt.settle()
 
+    def _blocked_for_good(self):
+        """some request can only end through the relay's timeout: the peer is stalling on purpose"""
+        return self.stalling > 0
+
     def run_to_end(self):
-        self.pump(0.5)
+        import time as _t
+        # real sockets: give every request that the peer does answer the wall-clock time it needs (a loaded machine
+        # must not turn into a relay timeout); virtual time moves only when a request is stuck on a stalling peer
+        t_end = _t.time() + 20
+        while any(not g.ready() for g in self.greenlets) and not self._blocked_for_good() and _t.time() < t_end:
+            self.pump(0.1)
         n = 0
         while any(not g.ready() for g in self.greenlets) and n < 10:
             n += 1
@@ -147,7 +194,10 @@ class HttpRun(object):
                 break
             CLOCK.fire_next()
             self.log(t='advance')
+            t_end = _t.time() + 20
             self.pump(0.3)
+            while any(not g.ready() for g in self.greenlets) and not self._blocked_for_good() and _t.time() < t_end:
+                self.pump(0.1)
         hung = sum(1 for g in self.greenlets if not g.ready())
         self.log(t='end', hung=hung, open=0)
         for g in self.greenlets:
